@@ -193,6 +193,17 @@ func checkC15(c C15Case) Verdict {
 			return bad(true, "template with comments %q rejected: %v", src.String(), err)
 		}
 		out := outs[0]
+		// what a template renders depends on its own source only: the same body after another template of
+		// the file that holds the same text pieces, each once behind and once in front of a comment
+		var decoy strings.Builder
+		for i, p := range c.Runs {
+			if c.Kinds[i] == "text" && !strings.HasPrefix(p, "//") {
+				decoy.WriteString("{$x}/* c */" + p + "{$x}" + p + "/* c */{$x}")
+			}
+		}
+		if both, err := renderBodies([]string{decoy.String(), nb.before + src.String() + nb.after}); err == nil && both[1] != out {
+			return bad(true, "the template %q renders %q alone and %q when another template of the file, %q, comes first", src.String(), out, both[1], decoy.String())
+		}
 		if strings.Contains(out, "CMT") || strings.Contains(out, "*/") || strings.Contains(out, "/*") {
 			return bad(true, "comment text reached the output: source %q renders %q", src.String(), out)
 		}
